@@ -521,7 +521,9 @@ func genSpelling(t *rapid.T, s *Sheet) {
 		s.Prefix = "x"
 	}
 	s.RowSpans = rapid.IntRange(0, 2).Draw(t, "rowSpans") == 0
-	s.OmitRowR = rapid.IntRange(0, 6).Draw(t, "omitRowR") == 0
+	omitRowR := rapid.IntRange(0, 6).Draw(t, "omitRowR")
+	s.OmitRowR = omitRowR <= 1
+	s.RowRFromCells = omitRowR == 1 // round 11: one draw, so that the cases of earlier rounds stay what they were
 	s.OmitCellR = rapid.IntRange(0, 5).Draw(t, "omitCellR") == 0
 	s.Noise = rapid.IntRange(0, 2).Draw(t, "noise") == 0
 }
